@@ -174,7 +174,11 @@ func (c04) Run(c *Ctx, i int) CaseResult {
 		store := GenStore(rand.New(rand.NewSource(5)), false)
 		cached, err := NewFed(FixedFed(), store, gateway.WithAutomaticQueryPlanCache())
 		if err == nil {
-			for k, text := range []string{"{ me { lastName # join key:\n id } }", "{ me { lastName # join key: id\n } }", "{ me { lastName # join key:\n id } }"} {
+			for k, text := range []string{"{ me { lastName # join key:\n id } }", "{ me { lastName # join key: id\n } }", "{ me { lastName # join key:\n id } }", "{ me { lastName # join key: id\n } }"} {
+				if k == 3 {
+					// the last one carries the key its text was stored under: it is answered from the cache
+					cached.CacheKey = shaHex(text)
+				}
 				o := cached.Run(text, "", nil, 5*time.Second)
 				fresh, err := NewFed(FixedFed(), store)
 				if err != nil {
@@ -183,7 +187,7 @@ func (c04) Run(c *Ctx, i int) CaseResult {
 				w := fresh.Run(text, "", nil, 5*time.Second)
 				if Canon(o.Data) != Canon(w.Data) {
 					res.Fails = append(res.Fails, Failure{Channel: "L0.keys", Classifier: "unclassified",
-						What:  fmt.Sprintf("request %d of a sequence of hash-less requests on a caching gateway has other keys than on a gateway that has seen nothing: %q", k, text),
+						What:  fmt.Sprintf("request %d of a sequence of requests on a caching gateway (three without a hash, the fourth with its text's) has other keys than on a gateway that has seen nothing: %q", k, text),
 						Input: map[string]interface{}{"query": text}, Expected: w.Data, Observed: o.Data})
 					return res
 				}
